@@ -313,12 +313,12 @@ _ROUND5 = {
  "C08": " Round 5: byte slices kept in bufcas digests are the package's own (BYTES-OWNED); NODE-FROM-OBJECT also for bufcas.NewFileSetForBucket.",
  "C09": " Round 5: the locker handed to a store is the result of filelock.NewLocker on every path (FILELOCK locker-real); every key-to-path function of the store uses the same complete set of key components, digest type and commit included (ENTRY-KEY).",
  "C10": " Round 5: the scanner's weak/public flags are not consulted when imports and dependencies are computed (IMPORT-KIND-BLIND); no ModuleSetBuilder.Add*Module call is gated on a targeting flag (ADD-NOT-TARGET-GATED).",
- "C11": " Round 5: archive readers write every valid entry, later members win (ARCHIVE-LAST-WINS); the image path filter promotes a file to non-import only when a --path selects it or it is one already (PROMOTION-NEEDS-PATH); every target path of a module's targeting went through the roots mapping (ROOTS-APPLIED).",
+ "C11": " Round 5: archive readers write every valid entry, later members win (ARCHIVE-LAST-WINS); the image path filter promotes a file to non-import only when a --path selects it or it is one already (PROMOTION-NEEDS-PATH); every target path of a module's targeting went through the roots mapping (ROOTS-APPLIED); the resolver-less first pass over a text-encoded image discards unknown fields in every encoding (BOOTSTRAP-LENIENT; F33, fixed).",
  "C12": " Round 5: a field is kept only after its type was looked at (FIELD-TYPE-CHECKED); the image index never consults IsImport (INDEX-TOTAL).",
  "C13": " Round 5: an untrusted name is not edited before validation (UNTRUSTED-NAME); archive readers validate a name before skipping the entry by kind or matcher (VALIDATE-BEFORE-SKIP); view constructors wrap exactly the bucket and mappers they were given (VIEW-WRAPS-ARGUMENT; a correctly ordered flattening is accepted).",
  "C14": " Round 5: VIEW-WRAPS-ARGUMENT also for union/overlay constructors; a symlink met while walking is resolved with EvalSymlinks, never one Readlink hop (SYMLINK-RESOLVED); ARCHIVE-LAST-WINS and UNTRUSTED-NAME shared.",
  "C15": " Round 5: the OS response writer touches output files only in the closures it runs at Close (STAGED-UNTIL-FLUSH).",
- "C16": " Round 5: a configuration file is marked for deletion only on routes that also record its replacement (DELETE-PAIRED); deprecated-ID replacements are computed from a complete rule list (DEPRECATIONS-COMPLETE; F32, fixed); an extended use list keeps the defaults and names only v2 rules (MIGRATE-USE-LIST; F31, fixed).",
+ "C16": " Round 5: a configuration file is marked for deletion only on routes that also record its replacement (DELETE-PAIRED); deprecated-ID replacements are computed from a complete rule list (DEPRECATIONS-COMPLETE; F32, fixed) and merged when they collide (G-DERIVED-KEY-STORE; F34, fixed); an extended use list keeps the defaults and names only v2 rules (MIGRATE-USE-LIST; F31, fixed).",
  "C17": " Round 5: the protoc proxy hands protoc the source view of the request (RETENTION-VIEWS); STAGED-UNTIL-FLUSH shared.",
  "C18": " Round 5: a yes/no walk over the disable rules answers with constants (DISABLE-ANY-MATCH).",
  "C19": " Round 5: the entries of a token string are judged exactly as split (PARSE-ALL-OR-NOTHING/split-as-is); a client built for an explicitly given token consults that token only (SOURCE-ORDER/explicit-token-only).",
@@ -329,7 +329,7 @@ for _k, _v in _ROUND5.items():
         TEXTS[_k]["text"] = TEXTS[_k]["text"].rstrip() + _v
 
 # ---- the generic pack (rules G-…), run for every property over the packages it is anchored in ------------------------
-_GENERIC = " Generic shape rules over the anchored packages (G-FLAGLOOP, G-LOOP-ACCUM, G-ONCE-RESULT-LOST, G-ARGMAX, G-DELEGATE-ERR, G-ERRSEEN, G-STALE-ERR, G-ERRLOOP, G-SORTED-INVARIANT, G-PARALLEL-ERR-WHOLE, G-WRITE-SWALLOW, G-RANGE-KEY-AS-ELEMENT, G-MAP-APPEND-KEY, G-TRIM-CUTSET, G-FIRST-DECIDES, G-FORMAT-DATA, G-NIL-ELEMENT-BREAK, G-WALK-CUT, G-MARK-BEFORE-STATE-TEST, G-ERR-PATH-UNSEEN, G-COMPARATOR-BOTH, G-CTOR-KEEPS-PARAM, G-WITH-FLAG-NOOP, G-TWIN-PARAM-UNUSED, G-DEFER-KEEPS-ERR, G-SELF-OPERANDS, G-PURE-RESULT-DROPPED, G-LOCK-KIND-PAIRED; DESIGN 3.1): zero instances expected, each with positive and negative examples in the self-test or among the stored seeds."
+_GENERIC = " Generic shape rules over the anchored packages (G-FLAGLOOP, G-LOOP-ACCUM, G-ONCE-RESULT-LOST, G-ARGMAX, G-DELEGATE-ERR, G-ERRSEEN, G-STALE-ERR, G-ERRLOOP, G-SORTED-INVARIANT, G-PARALLEL-ERR-WHOLE, G-WRITE-SWALLOW, G-RANGE-KEY-AS-ELEMENT, G-MAP-APPEND-KEY, G-TRIM-CUTSET, G-FIRST-DECIDES, G-FORMAT-DATA, G-NIL-ELEMENT-BREAK, G-WALK-CUT, G-MARK-BEFORE-STATE-TEST, G-ERR-PATH-UNSEEN, G-COMPARATOR-BOTH, G-CTOR-KEEPS-PARAM, G-WITH-FLAG-NOOP, G-TWIN-PARAM-UNUSED, G-DEFER-KEEPS-ERR, G-SELF-OPERANDS, G-PURE-RESULT-DROPPED, G-LOCK-KIND-PAIRED, G-DERIVED-KEY-STORE; DESIGN 3.1): zero instances expected, each with positive and negative examples in the self-test or among the stored seeds."
 for _k in TEXTS:
     if _GENERIC.strip() not in TEXTS[_k]["text"]:
         TEXTS[_k]["text"] = TEXTS[_k]["text"].rstrip() + _GENERIC
